@@ -190,6 +190,7 @@ func (x *World) Exec(i int, op Op) map[string]interface{} {
 	var panel map[string]interface{}
 	wasLocked := w.IsLocked()
 	line["lockedBefore"] = wasLocked
+	rawC0, rawZ0 := ecs.VerifRawPtrCopies.Load(), ecs.VerifRawPtrZeros.Load()
 
 	e := x.entity(op.E)
 	tgt := x.entity(op.Tgt)
@@ -793,6 +794,49 @@ func (x *World) Exec(i int, op Op) map[string]interface{} {
 			}
 			r.ret = len(ecs.ComponentIDs(w))
 		})
+	case "MoveStress":
+		// Amplification for C14: move every entity that carries pointer components back and forth between two
+		// tables many times (net effect: none) while collections run concurrently. The listener is detached.
+		args["n"] = op.N
+		res = guard(func(r *result) {
+			spare := -1
+			for _, n := range x.compNums {
+				if c := x.comps[n]; !c.ptr && !c.isRel {
+					spare = n
+				}
+			}
+			if spare < 0 {
+				return
+			}
+			if x.lst != nil || x.disp != nil {
+				w.SetListener(nil)
+			}
+			moves := 0
+			for round := 0; round < op.N; round++ {
+				for _, e := range x.issued[x.epoch:] {
+					if !w.Alive(e) || w.Has(e, x.idOf(spare)) {
+						continue
+					}
+					m := w.Mask(e)
+					hasPtr := false
+					for _, n := range x.maskIDs(&m) {
+						hasPtr = hasPtr || (x.comps[n] != nil && x.comps[n].ptr)
+					}
+					if !hasPtr {
+						continue
+					}
+					w.Add(e, x.idOf(spare))
+					w.Remove(e, x.idOf(spare))
+					moves += 2
+				}
+			}
+			if x.disp != nil {
+				w.SetListener(x.disp)
+			} else if x.lst != nil {
+				w.SetListener(x.lst)
+			}
+			r.ret = moves
+		})
 	case "GCCheck":
 		// Release check: payloads that no component references any more must become collectable.
 		res = guard(func(r *result) { line["gc"] = x.gcCheck() })
@@ -804,6 +848,8 @@ func (x *World) Exec(i int, op Op) map[string]interface{} {
 
 done:
 	line["res"] = map[string]interface{}{"panic": res.panicked, "cls": clsOf(res), "msg": res.msg, "ret": res.ret, "handles": res.handles}
+	// untyped byte copies / zeroings that hit pointer-carrying columns during this call (verif hook)
+	line["raw"] = map[string]interface{}{"copies": int(ecs.VerifRawPtrCopies.Load() - rawC0), "zeros": int(ecs.VerifRawPtrZeros.Load() - rawZ0)}
 	evs := make([]interface{}, len(x.events))
 	for k, ev := range x.events {
 		evs[k] = ev
